@@ -486,7 +486,20 @@ def _drive(ctx, dom, cases):
             ctx.fail(klass, what[:600], obs, domain=dom if n == 0 else None)  # a case counts once as failed
 
 
+def deductive(ctx):
+    """engine D: SlurmWorker._verify_exit_code follows the scheduler's verdict on every path"""
+    from contracts import slurm as SL
+    from pyvc.verify import verify, summarize
+
+    summarize(ctx, verify(ctx, SL.verify_exit_code_contract()))
+
+
 def run(ctx):
+    deductive(ctx)
+    _run_bounded(ctx)
+
+
+def _run_bounded(ctx):
     ctx.level = "other"
     ctx.explanation = (
         "The real Submitter with the real SlurmWorker / SgeWorker is run against a scripted scheduler: every scheduler "
